@@ -24,9 +24,15 @@ def main():
     os.environ["AOTOOLS_AOTOOLS_VERIF"] = "1"
     try:
         mod = importlib.import_module("harness.props." + a.prop.lower())
+        tier = a.tier
         if a.replay:
-            return mod.replay(a.replay)
-        chk = common.Check(a.prop, a.tier, seed)
+            import json
+            rec = json.load(open(a.replay))
+            print("REPLAY %s" % json.dumps(rec.get("failure") or rec.get("broken"), indent=1, default=str)[:4000])
+            if hasattr(mod, "replay"):
+                return mod.replay(rec)
+            seed, tier = int(rec.get("seed", seed)), rec.get("tier", tier)   # default: re-run the recorded run
+        chk = common.Check(a.prop, tier, seed)
         mod.run(chk)
         rc = chk.finish()
     except Exception:
@@ -35,7 +41,7 @@ def main():
         return 2
     if rc == 0:
         print("OK property=%s tier=%s seed=%d theorems=%d corr=%d oracle=%d wall=%.1fs"
-              % (a.prop, a.tier, seed, len(chk.obligations), chk.corr_cases, chk.oracle_cases,
+              % (a.prop, tier, seed, len(chk.obligations), chk.corr_cases, chk.oracle_cases,
                  __import__("time").time() - chk.t0))
     return rc
 
